@@ -158,6 +158,28 @@ def theorems_of(module_file: Path) -> list[str]:
     return names
 
 
+def failing_theorems(module: str, build_output: str) -> list[str]:
+    """names of the theorems of a module inside whose text the build reported errors (by line number)"""
+    path = LEAN_DIR / (module.replace(".", "/") + ".lean")
+    if not path.exists():
+        return []
+    rel = module.replace(".", "/") + ".lean"
+    lines = sorted({int(m.group(1)) for m in re.finditer(re.escape(rel) + r":(\d+):\d+", build_output)})
+    if not lines:
+        return []
+    src = path.read_text().splitlines()
+    starts = [(i + 1, THEOREM_RE.match(l).group(1)) for i, l in enumerate(src) if THEOREM_RE.match(l)]
+    out = []
+    for ln in lines:
+        owner = None
+        for st, nm in starts:
+            if st <= ln:
+                owner = nm
+        if owner and owner not in out:
+            out.append(owner)
+    return out
+
+
 def audit(modules: list[str]) -> dict:
     """`#print axioms` on every theorem of the given Props modules + forbidden-token grep over the whole library.
 
